@@ -102,6 +102,13 @@ class GotranCCodePrinter(C99CodePrinter):
         # numbers, otherwise C would perform integer division (1/4 == 0).
         return super()._print_Mul(_float_denominators(expr))
 
+    def _print_BooleanTrue(self, expr):
+        # true and false are not defined without stdbool.h
+        return "1"
+
+    def _print_BooleanFalse(self, expr):
+        return "0"
+
     def _print_re(self, expr):
         # All model quantities are real. (sympy introduces re and im when it cannot
         # prove that, e.g. abs(exp(x**0.5)) becomes exp(re(x**0.5)))
@@ -138,7 +145,7 @@ class GotranCCodePrinter(C99CodePrinter):
 
             assert all_lsh_equal, "All assignments in Piecewise must have the same lhs"
 
-            if super()._print(arg[1]) == "true":
+            if arg[1] == sympy.true:
                 result = result[:-3]
                 result.append(f"{super()._print(arg[0].rhs)}")
             else:
@@ -157,7 +164,7 @@ class GotranCCodePrinter(C99CodePrinter):
                 ],
                 evaluate=False,
             )
-            value = bool_to_int(super()._print_Piecewise(expr))
+            value = super()._print_Piecewise(expr)
 
         return value
 
